@@ -15,7 +15,7 @@
 (* to MaxSent sentinel occurrences and n <= MaxN (u8 path of suffix_array),   *)
 (* plus the longer repetitive texts of Extra (recursion depth >= 2).          *)
 EXTENDS SuffixIndex
-CONSTANTS Sym, Sent, MaxN, MaxSent, ExtraLens
+CONSTANTS Sym, Sent, MaxN, MaxSent, ExtraLens, BlockMax
 
 VARIABLES orig, stack, pos, lms, rtp, pc
 vars == <<orig, stack, pos, lms, rtp, pc>>
@@ -33,7 +33,10 @@ Thue(n) == [i \in 1..n |-> IF Ones(i - 1) % 2 = 0 THEN A ELSE B]
 Unit5 == <<A, A, B, A, B>>
 Per5(n) == [i \in 1..n |-> Unit5[((i - 1) % 5) + 1]]
 AbkA(n) == [i \in 1..n |-> IF i % 2 = 1 THEN A ELSE B]
-Extra == UNION {{SubSeq(FibW(9), 1, n) \o <<Sent>>, Thue(n) \o <<Sent>>, Per5(n) \o <<Sent>>, AbkA(n) \o <<Sent>>,
+\* few long repeated monotone blocks: [prefix] (a^i b^j)^r -- LMS substrings longer than the LMS count
+Blocks(i, j, r) == [x \in 1..((i + j) * r) |-> IF ((x - 1) % (i + j)) < i THEN A ELSE B]
+BlockTexts == {pre \o Blocks(i, j, r) \o <<Sent>> : pre \in {<< >>, <<A>>, <<B>>}, i \in 1..BlockMax, j \in 1..BlockMax, r \in 2..3}
+Extra == BlockTexts \cup UNION {{SubSeq(FibW(9), 1, n) \o <<Sent>>, Thue(n) \o <<Sent>>, Per5(n) \o <<Sent>>, AbkA(n) \o <<Sent>>,
                  SubSeq(Thue(n), 1, n \div 2) \o <<Sent>> \o SubSeq(Thue(n), 1, n \div 2) \o <<Sent>>} : n \in ExtraLens}
 
 Top == stack[Len(stack)]
@@ -119,6 +122,17 @@ NamesMonotone ==
     pc = "name" /\ Count > 1 =>
         LET red == Naming.red IN
         \A x, y \in 1..Count : SufLess(X, lms[x], lms[y]) /\ red[x] # red[y] => red[x] < red[y]
+\* names are equal exactly when the LMS substrings are equal (as strings from one LMS position to the
+\* next one inclusive; the last one ends at the sentinel) -- however long they are compared with the
+\* number of LMS positions
+NextLms(p) == IF \E q \in (p + 1)..(N - 1) : IsLms(Top.ty, q)
+              THEN CHOOSE q \in (p + 1)..(N - 1) : IsLms(Top.ty, q) /\ \A z \in (p + 1)..(q - 1) : ~IsLms(Top.ty, z)
+              ELSE N - 1
+LmsSubstring(p) == SubSeq(X, p + 1, NextLms(p) + 1)
+NamesFaithful ==
+    pc = "name" /\ Count > 1 =>
+        LET red == Naming.red IN
+        \A x, y \in 1..Count : (red[x] = red[y]) <=> (LmsSubstring(lms[x]) = LmsSubstring(lms[y]))
 \* the sorted LMS list handed to the second induced sort is in suffix order
 LmsSorted ==
     pc = "induce2" =>
